@@ -171,6 +171,11 @@ def to_scenario(hist, matrices):
             steps.append({"op": "request", "id": "q%d_%d" % (i, j), "async": True, "host": H(q["host"]), "uri": H(q["uri"]),
                           "tls": q["tls"], "method": q["method"], "headers": hdrs})
         steps.append({"op": "sleep", "ns": PROBE_WINDOW + SEC // 2 + 7, "id": "w%d" % i})
+        if c.get("outage_after"):
+            # one target of a deployed service fails its probes for a while: the commands that follow run (and take their
+            # snapshots) while it is out of rotation; it recovers later
+            steps.append({"op": "probe_script", "targets": [{"name": H(c["outage_after"]), "probes": ["refused"] * 7 + ["ok"]}]})
+            steps.append({"op": "sleep", "ns": SEC + SEC // 2 + 3, "id": "g%d" % i})
         if c.get("flap_after"):
             steps.append({"op": "probe_script", "targets": [{"name": H(c["flap_after"]), "probes": ["refused", "ok"]}]})
             steps.append({"op": "sleep", "ns": 2 * SEC + SEC // 2 + 3, "id": "f%d" % i})
